@@ -50,10 +50,17 @@ def drv_recall(name):
     return keep, (q.first, q.von, q.last, q.jr)
 
 
+def third_ok(entry):
+    w = entry.fields[2].value
+    return (isinstance(w, list) and len(w) == 1 and isinstance(w[0], N.NameParts)
+            and [w[0].first, w[0].von, w[0].last, w[0].jr] == [["Aa"], [], ["Bb"], []])
+
+
 def drv_mw(name):
     # 'editor' is a second name field standing BEFORE the one under test: if 'author' turns out invalid, the error block
-    # must retain the ORIGINAL entry, i.e. the editor must still be the list of strings
-    entry = Entry("article", "k", [Field("editor", [FIRST]), Field("author", [FIRST, name])])
+    # must retain the ORIGINAL entry, i.e. the editor must still be the list of strings.  A third field repeats the key
+    # 'author' (a hand-built entry / one taken out of a DuplicateFieldKeyBlock): every field keeps ITS OWN names
+    entry = Entry("article", "k", [Field("editor", [FIRST]), Field("author", [FIRST, name]), Field("author", [FIRST])])
     lib = Library([entry])
     out = N.SplitNameParts(allow_inplace_modification=True).transform(lib)
     return entry, out.blocks, O.oracle(name)
@@ -142,7 +149,7 @@ def replay_mw(name):
     exp = O.oracle(name)
     if exp[0] == "unspecified":
         return None
-    entry = Entry("article", "k", [Field("editor", [FIRST]), Field("author", [FIRST, name])])
+    entry = Entry("article", "k", [Field("editor", [FIRST]), Field("author", [FIRST, name]), Field("author", [FIRST])])
     try:
         out = N.SplitNameParts(allow_inplace_modification=True).transform(Library([entry]))
     except Exception as e:  # noqa
@@ -152,16 +159,17 @@ def replay_mw(name):
     b = out.blocks
     if exp[0] == "invalid":
         ok = (len(b) == 1 and isinstance(b[0], MiddlewareErrorBlock) and b[0].ignore_error_block is entry
-              and entry.fields[1].value == [FIRST, name] and entry.fields[0].value == [FIRST] and isinstance(b[0].error, N.InvalidNameError))
+              and entry.fields[1].value == [FIRST, name] and entry.fields[0].value == [FIRST] and entry.fields[2].value == [FIRST]
+              and isinstance(b[0].error, N.InvalidNameError))
     else:
         v = entry.fields[1].value
         ok = (len(b) == 1 and b[0] is entry and isinstance(v, list) and len(v) == 2
               and isinstance(v[0], N.NameParts) and isinstance(v[1], N.NameParts)
               and [v[0].first, v[0].von, v[0].last, v[0].jr] == [["Aa"], [], ["Bb"], []]
-              and [v[1].first, v[1].von, v[1].last, v[1].jr] == list(exp[1:]))
+              and [v[1].first, v[1].von, v[1].last, v[1].jr] == list(exp[1:]) and third_ok(entry))
     if ok:
         return None
-    return {"input": name, "observed": f"blocks={[type(x).__name__ for x in b]} editor={entry.fields[0].value!r} author={entry.fields[1].value!r}", "expected": list(exp)}
+    return {"input": name, "observed": f"blocks={[type(x).__name__ for x in b]} editor={entry.fields[0].value!r} author={entry.fields[1].value!r} second author field={entry.fields[2].value!r}", "expected": list(exp)}
 
 
 def sym_input(eng, L, sigma, prefix):
@@ -286,7 +294,7 @@ def task_mw(L, sigma, prefix=""):
         if exp[0] == "invalid":
             good = (isinstance(b, MiddlewareErrorBlock) and b.ignore_error_block is entry
                     and isinstance(b.error, N.InvalidNameError) and isinstance(entry.fields[1].value, list)
-                    and len(entry.fields[1].value) == 2 and entry.fields[0].value == [FIRST])
+                    and len(entry.fields[1].value) == 2 and entry.fields[0].value == [FIRST] and entry.fields[2].value == [FIRST])
             if good:
                 good = E(entry.fields[1].value, [FIRST, s])
             rec.require(W, b_not(good), "middleware-error-block", rp)
@@ -294,7 +302,7 @@ def task_mw(L, sigma, prefix=""):
         else:
             v = entry.fields[1].value
             good = (b is entry and isinstance(v, list) and len(v) == 2 and isinstance(v[0], N.NameParts) and isinstance(v[1], N.NameParts)
-                    and [v[0].first, v[0].von, v[0].last, v[0].jr] == [["Aa"], [], ["Bb"], []])
+                    and [v[0].first, v[0].von, v[0].last, v[0].jr] == [["Aa"], [], ["Bb"], []] and third_ok(entry))
             if good:
                 good = b_all(E(a, c) for a, c in zip([v[1].first, v[1].von, v[1].last, v[1].jr], exp[1:]))
             rec.require(W, b_not(good), "middleware-parts", rp)
